@@ -336,10 +336,12 @@ def check_max_style(project: Project, rep, qual, I=None):
             for x in sym.walk(v.e):
                 if x[0] == "ite" and x[2] != x[3]:
                     am = [y for y in sym.walk(x[1]) if y[0] == "opq" and y[1] == "argmax"]
-                    if not am:
+                    am_red = [y for y in sym.walk(x[1]) if y[0] == "red" and y[1] == "argmax"]
+                    if not am and not am_red:
                         continue
                     cols = {z[2][1] for y in am for d in y[2] if isinstance(d, tuple) for z in sym.walk(d)
                             if z[0] == "in" and z[1] == "Mt"}
+                    cols |= {z[2][1] for y in am_red for z in sym.walk(y[4]) if z[0] == "in" and z[1] == "Mt"}
                     if cols == {2}:
                         marked.append(v)
                     else:
